@@ -205,8 +205,12 @@ class Ctx:
         # concurrent GC on 16 cores costs 10x in futex traffic; parallelism comes from several processes
         env = dict(env or os.environ)
         env.setdefault("GOMAXPROCS", "1")
-        p = subprocess.run(cmd, stdout=subprocess.PIPE, stderr=subprocess.PIPE, text=True, timeout=timeout,
-                           env=env, cwd=cwd, errors="replace")
+        try:
+            p = subprocess.run(cmd, stdout=subprocess.PIPE, stderr=subprocess.PIPE, text=True, timeout=timeout,
+                               env=env, cwd=cwd, errors="replace")
+        except subprocess.TimeoutExpired:
+            self.notes.append("harness %s did not finish within %ds (FC_VERIF=%s)" % (cmd[:3], timeout, env.get("FC_VERIF", "")))
+            return None
         ins, outs, vio, stats = [], [], [], {}
         for ln in p.stdout.split("\n"):
             if ln.startswith("I "):
